@@ -294,7 +294,12 @@ class Run:
             seen_what.setdefault(what, []).append(ev)
         write_ndjson(self.path("violations.ndjson"), [{"what": w, "event": e} for w, e in self.violations])
         write_ndjson(self.path("deviations.ndjson"), [{"deviation": d, "event": e} for d, es in self.deviations.items() for e in es])
+        shown = 0
         for what, evs in seen_what.items():
+            n_viol += len(evs)
+            if shown >= 12:      # every violation is counted and stored in violations.ndjson; print the first dozen
+                continue
+            shown += min(3, len(evs))
             for ev in evs[:3]:
                 payload = {"property": self.pid, "what": what, "event": ev}
                 if self.case_of:
@@ -306,7 +311,6 @@ class Run:
                 out_lines.append(f"  {what}: {brief(ev)}")
             if len(evs) > 3:
                 out_lines.append(f"  ... and {len(evs)-3} more events with: {what}")
-            n_viol += len(evs)
         ev = {"property_id": self.pid, "tier": self.tier, "seed": seed(), "level": level,
               "coverage": self.cov, "assumptions": self.assumptions,
               "wall_s": round(time.time() - self.t0, 1), "violations": n_viol}
